@@ -112,9 +112,21 @@ Definition step_event (rs : rstate) (e : hevent) : rstate * list hout :=
   let '(h', outs) := hstep (rs_h rs) e in
   (record_outs (set_h rs h') outs, outs).
 
-Definition do_req (rs : rstate) (c mt : N) (wok : bool) : rstate :=
+(* (req c mt wok): the request is taken, its frame queued, handed to the writer
+   and written (wok) or not (the write fails and the loop learns of it) - the
+   harness lets nothing else happen in between *)
+Definition req_steps (rs : rstate) (c mt : N) (wok : bool) : rstate * list hout :=
   let rs := set_mt rs c mt in
-  let '(rs, outs) := step_event rs (EReq c mt wok) in
+  let '(rs, o1) := step_event rs (EReq c mt) in
+  match o1 with
+  | [] =>
+      let '(rs, _) := step_event rs EHand in
+      step_event rs (if wok then EWrote else EWriteFailed)
+  | _ => (rs, o1)
+  end.
+
+Definition do_req (rs : rstate) (c mt : N) (wok : bool) : rstate :=
+  let '(rs, outs) := req_steps rs c mt wok in
   match outs with
   | OFrame t _ _ :: _ => push rs (SList [ssym "f"; snat t])
   | ODeliverErr _ _ :: _ => push_return rs c (call_returns rs c false)
@@ -140,8 +152,7 @@ Fixpoint do_burst (fuel : nat) (rs : rstate) (c mt : N) (runs : list (N * N)) (g
   match fuel with
   | O => (rs, runs, good)
   | S f =>
-      let rs := set_mt rs c mt in
-      let '(rs, outs) := step_event rs (EReq c mt true) in
+      let '(rs, outs) := req_steps rs c mt true in
       match outs with
       | OFrame t _ _ :: _ =>
           let '(rs, outs2) := step_event rs (EResp t {| r_type := mt + 1; r_id := c |}) in
